@@ -395,6 +395,198 @@ Section SimSave.
     - intros cn k Hin. cbn [with_unsaved m_listp]. rewrite HL. exact (r_listp _ _ _ _ R _ _ Hin).
   Qed.
 
+  (* every pending value has been stored into config by the loop of save() *)
+  Definition landed (st : mst) (pend : list (bytes * ival)) : Prop :=
+    forall cn iv k, dget cn pend = Some iv -> In (cn, k) opts ->
+      match iv with
+      | IList l => dget cn (m_config st) = Some (CList true l) /\ dget cn (m_unsaved st) = Some UAlias
+      | IScalar s =>
+          exists a, atom_text a = s /\ dget cn (m_unsaved st) = Some (UVal (CAtom a)) /\
+                    exists pv, parse (pk_of k) (PAtom a) = Ok pv /\ dget cn (m_config st) = Some (cval_of_pyval true pv)
+      end.
+
+  Lemma landed_after_loop st m sl : Rel st m -> loop_facts st sl -> landed sl (s_pend (m_st m)).
+  Proof.
+    intros R LF cn iv k Hp Hin. destruct (r_pend _ _ _ _ R _ _ Hp) as [k' [Hin' Hpr]].
+    assert (k' = k) by (eapply opts_kind_unique; eassumption). subst k'.
+    exact (loop_config _ _ _ _ _ _ R LF Hp Hin Hpr).
+  Qed.
+
+  (* ---- Tor acknowledges a SETCONF whose values are (still) what is pending ---- *)
+  Lemma rel_ack st m :
+    Rel st m -> landed st (s_pend (m_st m)) -> has_empty_list (s_pend (m_st m)) = false ->
+    has_odd_list (s_pend (m_st m)) = false ->
+    Rel (with_unsaved st [])
+        {| m_st := {| s_store := apply_entries opts (s_store (m_st m)) (pend_entries (s_pend (m_st m))); s_pend := [] |};
+           m_det := []; m_f1 := false; m_f3 := false; m_fs := m_fs m; m_f4 := m_f4 m |}.
+  Proof.
+    intros R HLand He Hodd.
+    constructor; cbn [m_st m_det m_f1 m_f3 m_fs m_f4 s_store s_pend with_unsaved m_parsers m_config m_defaults m_unsaved]; auto.
+    - exact (r_pkeys _ _ _ _ R).
+    - intros cn k Hin. exact (r_ptys _ _ _ _ R _ _ Hin).
+    - intros cn k Hin. exact (r_cfg _ _ _ _ R _ _ Hin).
+    - intros cn k Hin. exact (r_dfl _ _ _ _ R _ _ Hin).
+    - intros cn k Hin _. split; [reflexivity|].
+      pose proof (apply_entries_get opts opts_nodup _ (s_store (m_st m)) cn (canonical_pend_entries _ _ R)) as Hsg.
+      destruct (dget cn (s_pend (m_st m))) as [iv|] eqn:Ep.
+      + (* touched *)
+        pose proof (dget_In _ _ _ Ep) as Hinp.
+        rewrite (pend_entries_has_key _ _ _ Hinp), (values_of_pending _ _ _ (pend_nodup_ci _ _ R) Hinp) in Hsg.
+        destruct (r_pend _ _ _ _ R _ _ Ep) as [k' [Hin' Hpr]].
+        assert (k' = k) by (eapply opts_kind_unique; eassumption). subst k'.
+        pose proof (HLand _ _ _ Ep Hin) as Hlc.
+        destruct iv as [s|l]; cbn [pend_rel] in Hpr.
+        * destruct Hlc as [a [Ht [Husa [pv [Hpa Hc]]]]].
+          destruct Hpr as [a0 [Hu0 [Ht0 Hd]]].
+          assert (a0 = a) by (rewrite Hu0 in Husa; now inversion Husa).
+          subst a0.
+          unfold iv_values in Hsg. cbn [entries_for map concat some_nonempty] in Hsg.
+          destruct Hd as [[Hl [Hv Hts]]|[Hk [Ha [Hcs _]]]].
+          -- destruct (parse_agrees k a Hv) as [a' [Hp1 Hp2]]. rewrite Hp1 in Hpa. inversion Hpa. subst pv.
+             cbn [cval_of_pyval] in Hc. rewrite <- Ht in *.
+             assert (atom_text a <> []) as Hne.
+             { destruct (kind_eqb k KStr) eqn:Ek.
+               - assert (k = KStr) by (destruct k; try discriminate Ek; reflexivity). subst k.
+                 pose proof (Hts eq_refl) as Hto. unfold text_ok in Hto. repeat (apply andb_true_iff in Hto as [Hto ?]).
+                 destruct (atom_text a); discriminate.
+               - assert (k <> KStr) as Hk by (intros ->; discriminate Ek).
+                 exact (proj1 (parse_scalar_not_default _ _ _ Hl Hk Hp2)). }
+             destruct (atom_text a) as [|c r] eqn:E; [congruence|]. rewrite <- E in *. rewrite app_nil_r in Hsg.
+             eapply synced_scalar; try eassumption.
+          -- subst k a. clear Ht Ht0. rewrite parse_comma_text in Hpa. inversion Hpa. subst pv. cbn [cval_of_pyval] in Hc.
+             assert (s <> []) as Hne.
+             { pose proof Hcs as Hcs'. unfold comma_text_ok, text_ok in Hcs'.
+               repeat (apply andb_true_iff in Hcs' as [Hcs' ?]). destruct s; discriminate. }
+             destruct s as [|c r] eqn:E; [congruence|]. rewrite <- E in *. rewrite app_nil_r in Hsg.
+             eapply synced_comma_text; eassumption.
+        * destruct Hlc as [Hc _]. destruct Hpr as [Hlk [Hpf _]].
+          assert (forallb (fine k) l = true) as Hf.
+          { apply forallb_forall. intros a Ha. apply pfine_fine; [exact (proj1 (forallb_forall _ _) Hpf a Ha)|].
+            pose proof (proj1 (existsb_false_forall _ _) Hodd (cn, IList l) (dget_In _ _ _ Ep)) as X. cbn [snd] in X.
+            exact (proj1 (existsb_false_forall _ _) X a Ha). }
+          assert (l <> []) as Hne.
+          { intros ->. assert (has_empty_list (s_pend (m_st m)) = true) as X; [|congruence].
+            apply existsb_exists. exists (cn, IList []). auto. }
+          unfold iv_values in Hsg. destruct l as [|a0 l0] eqn:El; [congruence|]. rewrite <- El in *.
+          assert (entries_for (IList l) = map (fun a => Some (atom_text a)) l) as Hef by (rewrite El; reflexivity).
+          rewrite Hef in Hsg.
+          destruct (fine_texts _ _ Hf) as [_ [_ [_ [_ I5]]]]. rewrite I5 in Hsg.
+          eapply synced_list; try eassumption.
+      + (* untouched *)
+        assert (~ In cn (map fst (s_pend (m_st m)))) as Hni.
+        { intros Hi. destruct (dget_in_keys _ _ Hi) as [v Hv]. congruence. }
+        rewrite (pend_entries_no_key _ _ Hni) in Hsg.
+        destruct (r_sync _ _ _ _ R _ _ Hin Ep) as [_ Hs].
+        assert (synced defaults st (apply_entries opts (s_store (m_st m)) (pend_entries (s_pend (m_st m)))) cn k) as Hs'
+          by (unfold synced in *; now rewrite Hsg).
+        eapply synced_frame; [| |exact Hs']; reflexivity.
+    - intros cn iv Hp. discriminate.
+    - constructor.
+    - intros cn k Hin. exact (r_listp _ _ _ _ R _ _ Hin).
+  Qed.
+
+  (* ---- Tor acknowledges a snapshot S sent earlier: the options that still hold the acknowledged value
+          stop being pending (they have landed in config), the others stay as they are ---- *)
+  Lemma mem_filter f cn l : mem_bytes cn (filter f l) = mem_bytes cn l && f cn.
+  Proof.
+    induction l as [|x l IH]; [reflexivity|]. cbn [filter mem_bytes]. destruct (f x) eqn:Ef; cbn [mem_bytes]; rewrite IH.
+    - destruct (beqb x cn) eqn:E; [apply beqb_eq in E; subst; now rewrite Ef|reflexivity].
+    - destruct (beqb x cn) eqn:E; [apply beqb_eq in E; subst; rewrite Ef; now rewrite andb_false_r|reflexivity].
+  Qed.
+
+  Lemma rel_ack_partial st m S u2 pend2 :
+    Rel st m ->
+    nodup_ci (map fst S) = true -> canonical_keys opts (pend_entries S) ->
+    has_empty_list S = false -> has_odd_list S = false ->
+    map fst u2 = map fst pend2 -> NoDup (map fst u2) ->
+    (forall cn iv, dget cn pend2 = Some iv -> dget cn (s_pend (m_st m)) = Some iv /\ dget cn u2 = dget cn (m_unsaved st)) ->
+    (forall cn, dget cn pend2 = None -> dget cn u2 = None) ->
+    (forall cn iv k, dget cn S = Some iv -> dget cn pend2 = None -> In (cn, k) opts ->
+       dget cn (s_pend (m_st m)) = Some iv /\
+       match iv with
+       | IList l => dget cn (m_config st) = Some (CList true l) /\ dget cn (m_unsaved st) = Some UAlias
+       | IScalar s0 =>
+           exists a, atom_text a = s0 /\ dget cn (m_unsaved st) = Some (UVal (CAtom a)) /\
+                     exists pv, parse (pk_of k) (PAtom a) = Ok pv /\ dget cn (m_config st) = Some (cval_of_pyval true pv)
+       end) ->
+    (forall cn, dget cn S = None -> dget cn pend2 = dget cn (s_pend (m_st m))) ->
+    Rel (with_unsaved st u2)
+        {| m_st := {| s_store := apply_entries opts (s_store (m_st m)) (pend_entries S); s_pend := pend2 |};
+           m_det := filter (fun cn => dmem cn pend2) (m_det m); m_f1 := false; m_f3 := false; m_fs := m_fs m; m_f4 := m_f4 m |}.
+  Proof.
+    intros R HSnd HScan He Hodd HU1 HU2 HP HU4 HL HN.
+    constructor; cbn [m_st m_det m_f1 m_f3 m_fs m_f4 s_store s_pend with_unsaved m_parsers m_config m_defaults m_unsaved]; auto.
+    - exact (r_pkeys _ _ _ _ R).
+    - intros cn k Hin. exact (r_ptys _ _ _ _ R _ _ Hin).
+    - intros cn k Hin. exact (r_cfg _ _ _ _ R _ _ Hin).
+    - intros cn k Hin. exact (r_dfl _ _ _ _ R _ _ Hin).
+    - intros cn k Hin Hq2. split; [now apply HU4|].
+      pose proof (apply_entries_get opts opts_nodup _ (s_store (m_st m)) cn HScan) as Hsg.
+      destruct (dget cn S) as [iv|] eqn:ES.
+      + (* touched *)
+        pose proof (dget_In _ _ _ ES) as Hinp.
+        rewrite (pend_entries_has_key _ _ _ Hinp), (values_of_pending _ _ _ HSnd Hinp) in Hsg.
+        destruct (HL _ _ _ ES Hq2 Hin) as [Ep1 Hlc].
+        destruct (r_pend _ _ _ _ R _ _ Ep1) as [k' [Hin' Hpr]].
+        assert (k' = k) by (eapply opts_kind_unique; eassumption). subst k'.
+        destruct iv as [s|l]; cbn [pend_rel] in Hpr.
+        * destruct Hlc as [a [Ht [Husa [pv [Hpa Hc]]]]].
+          destruct Hpr as [a0 [Hu0 [Ht0 Hd]]].
+          assert (a0 = a) by (rewrite Hu0 in Husa; now inversion Husa).
+          subst a0.
+          unfold iv_values in Hsg. cbn [entries_for map concat some_nonempty] in Hsg.
+          destruct Hd as [[Hl [Hv Hts]]|[Hk [Ha [Hcs _]]]].
+          -- destruct (parse_agrees k a Hv) as [a' [Hp1 Hp2]]. rewrite Hp1 in Hpa. inversion Hpa. subst pv.
+             cbn [cval_of_pyval] in Hc. rewrite <- Ht in *.
+             assert (atom_text a <> []) as Hne.
+             { destruct (kind_eqb k KStr) eqn:Ek.
+               - assert (k = KStr) by (destruct k; try discriminate Ek; reflexivity). subst k.
+                 pose proof (Hts eq_refl) as Hto. unfold text_ok in Hto. repeat (apply andb_true_iff in Hto as [Hto ?]).
+                 destruct (atom_text a); discriminate.
+               - assert (k <> KStr) as Hk by (intros ->; discriminate Ek).
+                 exact (proj1 (parse_scalar_not_default _ _ _ Hl Hk Hp2)). }
+             destruct (atom_text a) as [|c r] eqn:E; [congruence|]. rewrite <- E in *. rewrite app_nil_r in Hsg.
+             eapply synced_scalar; try eassumption.
+          -- subst k a. clear Ht Ht0. rewrite parse_comma_text in Hpa. inversion Hpa. subst pv. cbn [cval_of_pyval] in Hc.
+             assert (s <> []) as Hne.
+             { pose proof Hcs as Hcs'. unfold comma_text_ok, text_ok in Hcs'.
+               repeat (apply andb_true_iff in Hcs' as [Hcs' ?]). destruct s; discriminate. }
+             destruct s as [|c r] eqn:E; [congruence|]. rewrite <- E in *. rewrite app_nil_r in Hsg.
+             eapply synced_comma_text; eassumption.
+        * destruct Hlc as [Hc _]. destruct Hpr as [Hlk [Hpf _]].
+          assert (forallb (fine k) l = true) as Hf.
+          { apply forallb_forall. intros a Ha. apply pfine_fine; [exact (proj1 (forallb_forall _ _) Hpf a Ha)|].
+            pose proof (proj1 (existsb_false_forall _ _) Hodd (cn, IList l) (dget_In _ _ _ ES)) as X. cbn [snd] in X.
+            exact (proj1 (existsb_false_forall _ _) X a Ha). }
+          assert (l <> []) as Hne.
+          { intros ->. assert (has_empty_list S = true) as X; [|congruence].
+            apply existsb_exists. exists (cn, IList []). auto. }
+          unfold iv_values in Hsg. destruct l as [|a0 l0] eqn:El; [congruence|]. rewrite <- El in *.
+          assert (entries_for (IList l) = map (fun a => Some (atom_text a)) l) as Hef by (rewrite El; reflexivity).
+          rewrite Hef in Hsg.
+          destruct (fine_texts _ _ Hf) as [_ [_ [_ [_ I5]]]]. rewrite I5 in Hsg.
+          eapply synced_list; try eassumption.
+      + (* not part of the snapshot *)
+        assert (~ In cn (map fst S)) as Hni.
+        { intros Hi. destruct (dget_in_keys _ _ Hi) as [v Hv]. congruence. }
+        rewrite (pend_entries_no_key _ _ Hni) in Hsg.
+        rewrite (HN _ ES) in Hq2.
+        destruct (r_sync _ _ _ _ R _ _ Hin Hq2) as [_ Hs].
+        assert (synced defaults st (apply_entries opts (s_store (m_st m)) (pend_entries S)) cn k) as Hs'
+          by (unfold synced in *; now rewrite Hsg).
+        eapply synced_frame; [| |exact Hs']; reflexivity.
+    - intros cn iv Hp2. destruct (HP _ _ Hp2) as [Hp1 Hu]. destruct (r_pend _ _ _ _ R _ _ Hp1) as [k [Hin Hpr]].
+      exists k. split; [exact Hin|].
+      eapply pend_rel_frame with (cn := []); [| | | |exact Hpr]; cbn [with_unsaved m_unsaved m_config].
+      + intros E. subst cn. pose proof (opts_keys_ok _ _ Hin) as X. discriminate X.
+      + exact Hu.
+      + reflexivity.
+      + rewrite mem_filter. unfold dmem. rewrite Hp2. apply andb_true_r.
+    - intros cn k Hin. exact (r_listp _ _ _ _ R _ _ Hin).
+  Qed.
+
+
+
   (* ---- Tor rejected ---- *)
   Lemma rel_after_reject st m sl :
     Rel st m -> loop_facts st sl -> map fst (m_unsaved sl) = map fst (m_unsaved st) ->
@@ -436,12 +628,12 @@ Section SimSave.
     m_step names st (OpSave rej) = Some (st', ob) ->
     step_ok opts defaults st m (OpSave rej) st' ob.
   Proof.
-    intros R Hok Hf1 Hf4 H. cbn [m_step] in H.
+    intros R Hok Hf1 Hf4 H. cbn [m_step m_step_gen] in H.
     destruct (m_save st rej) as [[[s1 wrote] r]|] eqn:ES; [|discriminate].
     destruct (m_snapshot s1 names) as [[s2 snap]|] eqn:ESn; [|discriminate].
     inversion H. subst st' ob. clear H.
     destruct (r_clean _ _ _ _ R) as [C1 C3].
-    unfold step_ok. cbn [spec_check mon_step o_wrote o_res] in *.
+    unfold step_ok. cbn [spec_check spec_check_gen mon_step mon_step_gen o_wrote o_res] in *.
     pose proof (r_ukeys _ _ _ _ R) as Hk.
     destruct (s_pend (m_st m)) as [|p0 pend0] eqn:Ep.
     - (* nothing pending *)
@@ -474,7 +666,7 @@ Section SimSave.
           assert (match m_unsaved sl with [] => false | _ :: _ => true end = true) as ->.
           { destruct (m_unsaved sl); [rewrite EU in Hkeys; discriminate|reflexivity]. }
           rewrite N.eqb_refl. cbn [andb]. exact Hok'.
-        * rewrite ?C1, ?C3, ?Hf1. cbn [orb spec_next]. eapply Rel_flags_irrel. exact R'.
+        * rewrite ?C1, ?C3, ?Hf1. cbn [orb spec_next spec_next_gen]. eapply Rel_flags_irrel. exact R'.
       + (* acknowledged *)
         inversion ES. subst s1 wrote r.
         pose proof (rel_after_accept _ _ _ R LF Hf1 Hf4) as R'.
@@ -482,6 +674,37 @@ Section SimSave.
         rewrite <- names_eq, ESn in Hs. inversion Hs. subst s2 snap'.
         split.
         * rewrite Hparse, (entries_match_self _ (pend_nodup_ci _ _ R)). cbn [andb with_unsaved m_unsaved]. exact Hok'.
-        * rewrite ?C1, ?C3, ?Hf1. cbn [orb spec_next]. eapply Rel_flags_irrel. exact R'.
+        * rewrite ?C1, ?C3, ?Hf1. cbn [orb spec_next spec_next_gen]. eapply Rel_flags_irrel. exact R'.
+  Qed.
+  (* ---- save() up to the moment the SETCONF is handed to the protocol ---- *)
+  Definition sent_of (st : mst) : sent_t :=
+    map (fun ku : bytes * uval => (fst ku, resolve_u st (fst ku) (snd ku))) (m_unsaved st).
+
+  Lemma sim_send st m st1 c :
+    Rel st m -> m_send st = Some (st1, c) -> has_empty_list (s_pend (m_st m)) = false ->
+    match s_pend (m_st m) with
+    | [] => st1 = st /\ c = CDone
+    | _ :: _ =>
+        exists line, c = CLine line (sent_of st1) /\ parse_setconf line = Some (pend_entries (s_pend (m_st m))) /\
+          Rel st1 {| m_st := m_st m; m_det := scalar_keys (s_pend (m_st m)); m_f1 := false; m_f3 := false;
+                     m_fs := m_fs m; m_f4 := m_f4 m |} /\
+          landed st1 (s_pend (m_st m)) /\ m_unsaved st1 <> []
+    end.
+  Proof.
+    intros R ES Hf1. pose proof (r_ukeys _ _ _ _ R) as Hk. unfold m_send in ES.
+    destruct (s_pend (m_st m)) as [|p0 pend0] eqn:Ep.
+    - destruct (m_unsaved st) as [|u0 U]; [|discriminate Hk]. inversion ES. auto.
+    - rewrite <- Ep in *.
+      destruct (m_unsaved st) as [|u0 U] eqn:EU; [rewrite Ep in Hk; discriminate|]. rewrite <- EU in *.
+      destruct (save_loop st (m_unsaved st) []) as [[sl args]|e|] eqn:EL; try discriminate.
+      pose proof (r_nodup _ _ _ _ R) as Hwf.
+      destruct (save_loop_whole st sl args Hwf EL) as [Hargs [Hkeys _]]. subst args.
+      destruct (save_loop_effect_whole st sl _ Hwf EL) as [A [B [HP [HD HL]]]].
+      assert (loop_facts st sl) as LF by (repeat split; assumption).
+      rewrite (args_keys_ok _ _ R Hf1) in ES. inversion ES. subst st1 c.
+      eexists. split; [reflexivity|]. split.
+      { rewrite (setconf_line_parses _ (args_keys_ok _ _ R Hf1)). now rewrite (args_are_pend_entries _ _ R Hf1). }
+      split; [exact (rel_after_reject _ _ _ R LF Hkeys Hf1)|]. split; [exact (landed_after_loop _ _ _ R LF)|].
+      intros E. rewrite E, EU in Hkeys. discriminate.
   Qed.
 End SimSave.
